@@ -67,3 +67,25 @@ def ins_nochk(c: "list[Node]", dist: int, ins: "list[Node]", os_: int, oe: int) 
     if at_boundary(c, dist):
         return True
     return ins_deeper(c, dist, ins, os_, oe)
+
+
+def fits_first(c: "list[Node]", k: int) -> bool:
+    """the first-child spine below c has at least k nodes that can be open (non-leaf)"""
+    if k <= 0:
+        return True
+    if len(c) == 0 or leaf_t(c[0].type):
+        return False
+    return fits_first(c[0].content.content, k - 1)
+
+
+def fits_last(c: "list[Node]", k: int) -> bool:
+    if k <= 0:
+        return True
+    if len(c) == 0 or leaf_t(c[len(c) - 1].type):
+        return False
+    return fits_last(c[len(c) - 1].content.content, k - 1)
+
+
+def odfit(s: "Slice") -> bool:
+    """the slice is not open deeper than its content"""
+    return s.open_start >= 0 and s.open_end >= 0 and fits_first(s.content.content, s.open_start) and fits_last(s.content.content, s.open_end)
